@@ -321,6 +321,17 @@ size_t make_segmentation(size_t n, size_t start, size_t end, size_t epsilon, Fin
     }
     if (end >= start + 2 && in(end - 1) != in(end - 2))
         add_point(in(end - 1), end - 1);
+    else if (end >= start + 2 && end < n) {
+        // The chunk ends with a run of duplicate keys: same adjustment as above for the gap that follows the run
+        if constexpr (std::is_floating_point_v<K>) {
+            K next;
+            if ((next = std::nextafter(in(end - 1), std::numeric_limits<K>::infinity())) < in(end))
+                add_point(next, end - 1);
+        } else {
+            if (in(end - 1) + 1 < in(end))
+                add_point(in(end - 1) + 1, end - 1);
+        }
+    }
 
     if (end == n) {
         // Ensure values greater than the last one are mapped to n
@@ -364,6 +375,8 @@ size_t make_segmentation_par(size_t n, size_t epsilon, Fin in, Fout out) {
             if (first == last)
                 continue;
         }
+        for (; last < n && in(last) == in(last - 1); ++last)
+            continue; // a run of duplicates belongs entirely to the chunk in which it starts
 
         auto in_fun = [in](auto j) { return in(j); };
         auto out_fun = [&results, i](const auto &cs) { results[i].emplace_back(cs); };
